@@ -3,6 +3,7 @@ package main
 import (
 	"fmt"
 	"go/token"
+	"go/types"
 	"strings"
 
 	"golang.org/x/tools/go/ssa"
@@ -200,6 +201,12 @@ func a1Rule(min int, names ...string) Rule {
 					} else {
 						c.ok("A1", fname(f), l.what, l.pos, "error carried around the loop is preserved: "+l.detail)
 					}
+				}
+				for _, d := range c.a1DeferOverwrite(f) {
+					c.bad("A1", fname(f), d.what, d.pos, d.detail)
+				}
+				for _, d := range c.a1UseBeforeCheck(f) {
+					c.bad("A1", fname(f), d.what, d.pos, d.detail)
 				}
 				for _, r := range c.a1Func(f) {
 					construct := "error of " + r.callee
@@ -417,6 +424,210 @@ func (p *Prog) a1LoopCarried(f *ssa.Function) []a1Loop {
 				l.detail = "later iterations keep the earlier value or replace it by another non-nil error"
 			}
 			out = append(out, l)
+		}
+	}
+	return out
+}
+
+// ---------------------------------------------------------------------------
+// A1.d — a deferred function literal must not overwrite the error result
+//
+// `defer func() { err = f.Close() }()` replaces whatever error the body decided on by the (usually nil) result of the
+// clean-up. Accepted: a store guarded by `err == nil` (the clean-up error is reported only if nothing failed before),
+// or a stored value that is known non-nil there.
+
+type a1Finding struct {
+	what, detail string
+	pos          token.Pos
+}
+
+func (p *Prog) a1DeferOverwrite(f *ssa.Function) []a1Finding {
+	var out []a1Finding
+	for _, b := range f.Blocks {
+		for _, in := range b.Instrs {
+			df, ok := in.(*ssa.Defer)
+			if !ok {
+				continue
+			}
+			mc, ok := df.Call.Value.(*ssa.MakeClosure)
+			if !ok {
+				continue
+			}
+			g, ok := mc.Fn.(*ssa.Function)
+			if !ok || g.Blocks == nil {
+				continue
+			}
+			for bi, bind := range mc.Bindings {
+				al, ok := bind.(*ssa.Alloc)
+				if !ok || bi >= len(g.FreeVars) {
+					continue
+				}
+				pt, ok := al.Type().Underlying().(*types.Pointer)
+				if !ok || !isErrorType(pt.Elem()) {
+					continue
+				}
+				// the variable must be what f returns as its error
+				returned := false
+				for _, r := range returnsOf(f) {
+					for _, res := range r.Results {
+						if u, ok := res.(*ssa.UnOp); ok && u.X == ssa.Value(al) {
+							returned = true
+						}
+					}
+				}
+				if !returned {
+					continue
+				}
+				fv := g.FreeVars[bi]
+				for _, gb := range g.Blocks {
+					for _, gin := range gb.Instrs {
+						st, ok := gin.(*ssa.Store)
+						if !ok || st.Addr != ssa.Value(fv) {
+							continue
+						}
+						if !p.mayBeNilErr(st.Val, gb, 0) {
+							continue
+						}
+						guarded := false
+						for _, b2 := range g.Blocks {
+							for _, in2 := range b2.Instrs {
+								bo, ok := in2.(*ssa.BinOp)
+								if !ok || (bo.Op != token.EQL && bo.Op != token.NEQ) {
+									continue
+								}
+								isLoad := func(v ssa.Value) bool { u, ok := v.(*ssa.UnOp); return ok && u.X == ssa.Value(fv) }
+								if (isLoad(bo.X) && isNilConst(bo.Y)) || (isLoad(bo.Y) && isNilConst(bo.X)) {
+									if p.condAt(bo, bo.Op == token.EQL, gb) {
+										guarded = true
+									}
+								}
+							}
+						}
+						if !guarded {
+							out = append(out, a1Finding{"deferred store into the error result", "a deferred function assigns " + short(org(st.Val)) + " to the error result without testing that no error was decided before: the error of the function body is replaced by the (possibly nil) outcome of the clean-up", st.Pos()})
+						}
+					}
+				}
+			}
+		}
+	}
+	return out
+}
+
+// ---------------------------------------------------------------------------
+// A1.u — a result is used while the error of the same call has not been looked at
+//
+// For `v, err := g(...)`: every use of v lies where err is known nil or known non-nil (some test of err dominates it),
+// or hands v on together with err (return v, err). A use on a path that never examined err works with a partial or
+// zero result when g failed.
+
+func (p *Prog) a1UseBeforeCheck(f *ssa.Function) []a1Finding {
+	var out []a1Finding
+	for _, c := range allCalls(f) {
+		call, ok := c.(*ssa.Call)
+		if !ok || !hasErrResult(c) {
+			continue
+		}
+		tup, ok := call.Type().(*types.Tuple)
+		if !ok || tup.Len() < 2 {
+			continue
+		}
+		if _, ign := a1Ignored(calleeName(c), c, fname(f)); ign {
+			continue
+		}
+		e := errResult(c)
+		if e == nil {
+			continue
+		}
+		examined := func(blk *ssa.BasicBlock) bool {
+			if p.nilAt(e, blk) || p.nonNilAt(e, blk) {
+				return true
+			}
+			for _, a := range forwardAliases(e) {
+				if p.nilAt(a, blk) || p.nonNilAt(a, blk) {
+					return true
+				}
+			}
+			// the error spilled into a variable (named result, variable captured by a closure): tests of its loads
+			if e.Referrers() != nil {
+				for _, r := range *e.Referrers() {
+					st, ok := r.(*ssa.Store)
+					if !ok || st.Val != e {
+						continue
+					}
+					al, ok := st.Addr.(*ssa.Alloc)
+					if !ok {
+						continue
+					}
+					for _, rr := range *al.Referrers() {
+						if u, ok := rr.(*ssa.UnOp); ok && u.X == ssa.Value(al) && reachingStore(al, u) == st {
+							if p.nilAt(u, blk) || p.nonNilAt(u, blk) {
+								return true
+							}
+						}
+					}
+				}
+			}
+			return false
+		}
+		for _, r := range *call.Referrers() {
+			ex, ok := r.(*ssa.Extract)
+			if !ok || ex == e || isErrorType(ex.Type()) {
+				continue
+			}
+			// only results that can be "partial": references and aggregates, not counters / flags
+			if !hasRefs(ex.Type()) {
+				continue
+			}
+			// uses, looking through conversions
+			var uses []ssa.Instruction
+			var collect func(v ssa.Value, depth int)
+			collect = func(v ssa.Value, depth int) {
+				if v.Referrers() == nil || depth > 4 {
+					return
+				}
+				for _, u := range *v.Referrers() {
+					switch x := u.(type) {
+					case *ssa.MakeInterface:
+						collect(x, depth+1)
+					case *ssa.ChangeInterface:
+						collect(x, depth+1)
+					case *ssa.ChangeType:
+						collect(x, depth+1)
+					case *ssa.Convert:
+						collect(x, depth+1)
+					default:
+						uses = append(uses, u)
+					}
+				}
+			}
+			collect(ex, 0)
+			for _, u := range uses {
+				switch x := u.(type) {
+				case *ssa.Return:
+					withErr := false
+					for _, res := range x.Results {
+						if res == e || derives(res, func(v ssa.Value) bool { return v == e }, false) {
+							withErr = true
+						}
+					}
+					if withErr {
+						continue
+					}
+				case *ssa.Phi, *ssa.DebugRef, *ssa.Store:
+					// merges and moves of the value: its later uses are not followed
+					continue
+				case *ssa.Call:
+					if n := calleeName(x); n == "builtin:len" || n == "builtin:cap" {
+						continue
+					}
+				}
+				if examined(u.Block()) {
+					continue
+				}
+				out = append(out, a1Finding{"result of " + calleeName(c) + " used before its error is examined", "result " + fmt.Sprint(ex.Index) + " of the call is used at " + p.pos(u.Pos()) + " on a path where the call's error has not been tested: after a failure the value is empty or partial, and it is processed as if it were complete", u.Pos()})
+				break
+			}
 		}
 	}
 	return out
